@@ -302,7 +302,7 @@ def run_case(case, counters, violations, sigs, samples):
 
 
 def plan(tier, seed):
-    return F.std_plan(tier, seed, 320, 10000)
+    return F.std_plan(tier, seed, 960, 12000)
 
 
 def run_shard(desc):
